@@ -514,6 +514,55 @@ def run(ctx):
                                                  "process": [t["always"], t["build"]], "predicts": t["predicts"]}
         info[cls]["nullable"] = sorted(w.nullable)
 
+    # ---- data that are ALMOST the bound data are still different data: refused with ValueError, never adopted silently
+    near_runs = 0
+    for cls, (klass, extra, DX, DFo) in confs.items():
+        kw = dict(base_kw, **extra)
+        for how, mk in (("float32 copy", lambda D: D.astype(np.float32)), ("scaled by 1 + 1e-6", lambda D: D * (1.0 + 1e-6)),
+                        ("one entry moved by 1e-9", lambda D: D + 1e-9 * (np.arange(D.size).reshape(D.shape) == 3))):
+            for opname in ("set_x", "prepare_inference", "fit", "fit_predict"):
+                try:
+                    est = klass(**kw)
+                    est.fit(DX)
+                    before = np.array(est.x, copy=True)
+                    ref_pred = np.asarray(est.predict(DX[:5] + 0.125)) if cls != "DimensionalityEstimator" else np.asarray(est.predict(DX[:5] + 0.125))
+                except Exception as e:  # noqa
+                    ctx.violation("C18|one-shot|%s|%s" % (cls, type(e).__name__), "a plain one-shot fit fails", {"estimator": cls, "kwargs": repr(kw)})
+                    break
+                near = mk(DX)
+                o = enc.outcome(lambda: getattr(est, opname)(near))
+                near_runs += 1
+                if o != ("err", "ValueError"):
+                    same_x = np.array_equal(np.asarray(est.x), before)
+                    ctx.violation("C18|near-identical-data|%s|%s" % (cls, opname),
+                                  "data that differ slightly from the bound data are not refused with ValueError",
+                                  {"estimator": cls, "kwargs": repr(kw), "call": "est.fit(x); est.%s(x_near)" % opname, "x_near": how, "x": DX.tolist(),
+                                   "observed": o[1] if o[0] == "err" else "accepted", "bound_data_replaced": not same_x})
+    dist["near-identical foreign data"] = near_runs
+    # ---- a fitted model's length scale handed to a fresh model reproduces it also when ls_factor is not 1
+    for cls, (klass, extra, DX, DFo) in confs.items():
+        kw = dict(base_kw, **extra)
+        kw["ls_factor"] = 1.7
+        try:
+            e1 = klass(**kw)
+            e1.fit(DX)
+            q_ = DX[:5] + 0.125
+            p1 = np.asarray(e1.predict(q_))
+            import inspect as _insp
+            ctor_ = set(_insp.signature(klass.__init__).parameters)
+            for S in (("ls",), tuple(a_ for a_ in ("nn_distances", "d", "ls") if a_ in ctor_)):
+                e2 = klass(**dict(kw, **{a: getattr(e1, a) for a in S}))
+                e2.fit(DX)
+                preset_runs += 1
+                if not (np.array_equal(np.asarray(e2.ls), np.asarray(e1.ls)) and np.array_equal(np.asarray(e2.predict(q_)), p1)):
+                    ctx.violation("C18|presets|%s|ls_factor|%s" % (cls, "+".join(S)),
+                                  "a fresh model given the length scale of a model fitted with ls_factor != 1 does not reproduce it",
+                                  {"estimator": cls, "kwargs": repr(kw), "preset": list(S), "x": DX.tolist(), "ls_fitted": float(np.asarray(e1.ls)),
+                                   "ls_of_fresh_model": float(np.asarray(e2.ls)), "max_prediction_difference": float(np.abs(np.asarray(e2.predict(q_)) - p1).max())})
+        except Exception as e:  # noqa
+            ctx.violation("C18|presets|%s|ls_factor|%s" % (cls, type(e).__name__), "fit with ls_factor = 1.7 (or its preset re-run) fails",
+                          {"estimator": cls, "kwargs": repr(kw), "error": str(e)[:200]})
+
     # ---- histories in one process: an estimator fitted AFTER other estimators (or re-fitted) equals the same estimator in a
     #      fresh interpreter, bit for bit - state surviving between objects or fits (shared mutable defaults, module-level or
     #      identity-keyed caches) makes the two differ.  No oracle, no tolerance: harness/freshproc.py runs both in clean processes.
